@@ -19,11 +19,11 @@ import (
 // ---- C14: calls are checked exactly against the callee's declared interface ---------------------------
 
 type c14Case struct {
-	Files   map[string]string `json:"files"`   // world files (repository root = world root)
-	Caller  string            `json:"caller"`  // relative path of the caller workflow
-	Together []string         `json:"together"` // other files linted in the same invocation (may be empty)
-	Expect  []string          `json:"expect"`  // sorted "line|class|name"
-	Kind    string            `json:"kind"`
+	Files    map[string]string `json:"files"`    // world files (repository root = world root)
+	Caller   string            `json:"caller"`   // relative path of the caller workflow
+	Together []string          `json:"together"` // other files linted in the same invocation (may be empty)
+	Expect   []string          `json:"expect"`   // sorted "line|class|name"
+	Kind     string            `json:"kind"`
 }
 
 var (
